@@ -12,8 +12,8 @@ use serde_json::json;
 pub fn prop() -> Prop {
   Prop {
     id: "C15",
-    rule: "case = (source: hot Subject, hot create-handle, BehaviorSubject, never, or a cold `create` script that terminates at subscription; 0..2 pass-through operators, finalize (local or finalize_threads; thread-safe build), 0..2 further operators (pass-through, or take/first, or observe_on/delay on the virtual scheduler), optionally a second finalize; history of <= 8 steps: an item prefix, then complete / error / unsubscribe (or guard drop) in any order, each possibly repeated through cloned handles, more items in between). \
-           Oracle: the callback counter of every finalize is 0 until the first trigger (source completion, source error, unsubscription), equals the number of finalize operators when the triggering step returns, and never changes afterwards; when the trigger is a terminal and nothing asynchronous sits downstream, the subscriber had received that terminal before the callback ran. Non-trivial: >= 2 triggers in the history. Distinct by hash(case). Part `resubscribe`: a pipeline with 1..2 finalize operators over a cold source or a virtual-clock interval is built once; 2..3 clones are subscribed at generated (overlapping) times and each is unsubscribed 12 ticks after its start: the callbacks must have run exactly (number of finalize operators x number of subscriptions) times. Part `threads` (engine T): SubjectThreads -> finalize_threads -> probe; one thread sends 0..2 items and a terminal (complete or error, possibly twice through clones), another thread unsubscribes (possibly after an item of its own); schedule = <= 3 preemptions at lock-acquisition granularity (plus a yield inside the callback): after both threads have finished the callback has run exactly once, under every schedule; when the subscriber received the terminal the callback has run by the time the terminating call returns; the callback never runs while a notification is still being delivered to the subscriber on the other thread. Part `short` enumerates every trigger order of length <= 5 for the plain `hot.finalize()` pipeline.",
+    rule: "case = (source: hot Subject, hot create-handle, BehaviorSubject, never, or a cold `create` script that terminates at subscription; 0..2 pass-through operators, finalize (local or finalize_threads; thread-safe build), 0..2 further operators (pass-through, or take/first, or observe_on/delay on the virtual scheduler), optionally a second finalize; history of <= 8 steps (one case in eight: every item step becomes a run of 20..260 items): an item prefix, then complete / error / unsubscribe (or guard drop) in any order, each possibly repeated through cloned handles, more items in between). \
+           Oracle: the callback counter of every finalize is 0 until the first trigger (source completion, source error, unsubscription), equals the number of finalize operators when the triggering step returns, and never changes afterwards; when the trigger is a terminal and nothing asynchronous sits downstream, the subscriber had received that terminal before the callback ran. Part `crowd`: 2..8 or 33..260 subscriptions `subject.finalize(f_i)` of one Subject / SubjectThreads; history of items, unsubscriptions of chosen subscribers (first, last, middle, every other), more items, then complete / error / nothing; every callback counter is read after every step: 0 before the subscriber's own unsubscription or the terminal, 1 from that step on, never 2. Non-trivial: >= 2 triggers in the history. Distinct by hash(case). Part `resubscribe`: a pipeline with 1..2 finalize operators over a cold source or a virtual-clock interval is built once; 2..3 clones are subscribed at generated (overlapping) times and each is unsubscribed 12 ticks after its start: the callbacks must have run exactly (number of finalize operators x number of subscriptions) times. Part `threads` (engine T): SubjectThreads -> finalize_threads -> probe; one thread sends 0..2 items and a terminal (complete or error, possibly twice through clones), another thread unsubscribes (possibly after an item of its own); schedule = <= 3 preemptions at lock-acquisition granularity (plus a yield inside the callback): after both threads have finished the callback has run exactly once, under every schedule; when the subscriber received the terminal the callback has run by the time the terminating call returns; the callback never runs while a notification is still being delivered to the subscriber on the other thread. Part `short` enumerates every trigger order of length <= 5 for the plain `hot.finalize()` pipeline.",
     assumptions: &[
       "with take/first downstream of finalize a Subject-backed source may never hand its terminal to the finished pipeline: then only 'at most once, not before a trigger, run by the time the subscription was unsubscribed' is checked; a `create`-backed source (cold script or harness-held handle) passes its terminal on unconditionally, so there the callback must have run when that step returns",
       "threads part: sequentially consistent interleavings at lock-acquisition granularity",
@@ -23,6 +23,7 @@ pub fn prop() -> Prop {
       Part { name: "resubscribe", run: run_resub, tape_len: 48, quick_cases: 200_000, thorough_cases: 4_000_000, exhaustive_depth: None, exhaustive_budget: 0, exh_quick: false },
       Part { name: "threads", run: run_threads, tape_len: 24, quick_cases: 20_000, thorough_cases: 500_000, exhaustive_depth: None, exhaustive_budget: 0, exh_quick: false },
       Part { name: "short", run: run_short, tape_len: 16, quick_cases: 0, thorough_cases: 0, exhaustive_depth: Some(10), exhaustive_budget: 10_000_000, exh_quick: true },
+      Part { name: "crowd", run: run_crowd, tape_len: 48, quick_cases: 60_000, thorough_cases: 1_200_000, exhaustive_depth: None, exhaustive_budget: 0, exh_quick: false },
     ],
   }
 }
@@ -124,7 +125,27 @@ fn gen_case(c: &mut dyn Choices) -> Case {
       _ => Step::Advance(1 + c.pick(2) as u64),
     });
   }
-  Case { n_finalize, async_downstream, cutter_downstream, pcase: PCase { node, kinds: vec![kind], script, mode: SchedMode::Fifo, threads: c.pick(3) == 0 } }
+  let threads = c.pick(3) == 0;
+  // (appended picks, recorded tapes keep their meaning) one case in eight at scale: every item of the script becomes a
+  // run of 20..60 (or 64 / 65 / 130 / 260) items
+  let mut script = script;
+  if c.pick(8) == 7 {
+    let k = pick_size(c, 20, 41, &[64, 65, 130, 260]);
+    let mut long = vec![];
+    let mut id = 1000;
+    for st in script {
+      if let Step::Emit(i, Ev::N(_)) = st {
+        for _ in 0..k {
+          id += 1;
+          long.push(Step::Emit(i, Ev::N(V::I(id))));
+        }
+      } else {
+        long.push(st);
+      }
+    }
+    script = long;
+  }
+  Case { n_finalize, async_downstream, cutter_downstream, pcase: PCase { node, kinds: vec![kind], script, mode: SchedMode::Fifo, threads } }
 }
 
 fn judge(case: &Case, tr: &Trace) -> Result<(usize, bool), (String, String)> {
@@ -468,4 +489,132 @@ fn run_threads(c: &mut dyn Choices, ctx: &Ctx) -> Outcome {
     None
   };
   Outcome { verdict, nontrivial: stats.preemptions_taken > 0, hash: hash_of(&(items, error, twice, b_item, &preemptions)), labels: vec!["part:threads"], notes: vec![], desc }
+}
+
+
+// ------------------------------------------------------------ crowd part ----
+// many subscriptions of one subject, each with its own finalize callback (thresholds in the subject's subscriber list)
+
+#[derive(Clone, Debug, Hash)]
+enum CrOp {
+  Next,
+  Unsub(usize),
+  Complete,
+  Error,
+}
+
+struct CrSink;
+impl rxrust::prelude::Observer<i64, ()> for CrSink {
+  fn next(&mut self, _: i64) {}
+  fn error(self, _: ()) {}
+  fn complete(self) {}
+  fn is_finished(&self) -> bool {
+    false
+  }
+}
+
+macro_rules! impl_crowd {
+  ($name:ident, $subj:ty, $fin:ident) => {
+    /// counters of every subscriber after every step (index 0: after all subscriptions were made)
+    fn $name(m: usize, ops: &[CrOp]) -> Vec<Vec<usize>> {
+      use rxrust::prelude::*;
+      use std::sync::atomic::{AtomicUsize, Ordering};
+      use std::sync::Arc;
+      let subject = <$subj>::default();
+      let counters: Vec<Arc<AtomicUsize>> = (0..m).map(|_| Arc::new(AtomicUsize::new(0))).collect();
+      let mut subs: Vec<Option<_>> = counters
+        .iter()
+        .map(|c| {
+          let c = c.clone();
+          Some(subject.clone().$fin(move || {
+            c.fetch_add(1, Ordering::SeqCst);
+          })
+          .actual_subscribe(CrSink))
+        })
+        .collect();
+      let read = |cs: &Vec<Arc<AtomicUsize>>| cs.iter().map(|c| c.load(Ordering::SeqCst)).collect::<Vec<_>>();
+      let mut out = vec![read(&counters)];
+      let mut item = 0i64;
+      for op in ops {
+        match op {
+          CrOp::Next => {
+            item += 1;
+            subject.clone().next(item)
+          }
+          CrOp::Unsub(i) => {
+            if let Some(s) = subs[*i % m].take() {
+              s.unsubscribe()
+            }
+          }
+          CrOp::Complete => subject.clone().complete(),
+          CrOp::Error => subject.clone().error(()),
+        }
+        out.push(read(&counters));
+      }
+      drop(subs);
+      out
+    }
+  };
+}
+impl_crowd!(crowd_local, rxrust::prelude::Subject<'static, i64, ()>, finalize);
+impl_crowd!(crowd_threads, rxrust::prelude::SubjectThreads<i64, ()>, finalize_threads);
+
+fn run_crowd(c: &mut dyn Choices, ctx: &Ctx) -> Outcome {
+  let threads = c.flag();
+  let m = pick_size(c, 2, 7, &[33, 40, 64, 65, 130, 260]);
+  let n = c.pick(9);
+  let mut ops = vec![];
+  for _ in 0..n {
+    ops.push(match c.pick(8) {
+      0..=2 => CrOp::Next,
+      3 => CrOp::Unsub(0),
+      4 => CrOp::Unsub(m - 1),
+      5 => CrOp::Unsub(c.pick(m)),
+      6 => CrOp::Complete,
+      _ => CrOp::Error,
+    });
+  }
+  // expected counter of subscriber i after step k: 1 once it was unsubscribed or the subject terminated
+  let mut exp = vec![vec![0usize; m]];
+  let mut cur = vec![0usize; m];
+  for op in &ops {
+    match op {
+      CrOp::Next => {}
+      CrOp::Unsub(i) => cur[*i % m] = 1,
+      CrOp::Complete | CrOp::Error => cur.iter_mut().for_each(|x| *x = 1),
+    }
+    exp.push(cur.clone());
+  }
+  let res = guarded(|| if threads { crowd_threads(m, &ops) } else { crowd_local(m, &ops) });
+  let kind = if threads { "finalize_threads" } else { "finalize" };
+  let verdict = match &res {
+    Err(msg) => Verdict::Violation { sig: format!("crowd:panic:{kind}"), detail: msg.clone() },
+    Ok(got) => {
+      let mut v = Verdict::Ok;
+      'o: for (k, (g, e)) in got.iter().zip(exp.iter()).enumerate() {
+        for i in 0..m {
+          if g[i] != e[i] {
+            let what = if g[i] > e[i] { if e[i] == 0 { "too-early" } else { "ran-twice" } } else { "not-run" };
+            v = Verdict::Violation {
+              sig: format!("crowd:{what}:{kind}"),
+              detail: format!("{m} subscribers; after step {} ({}) the callback of subscriber {i} had run {} time(s), expected {}", k as i64 - 1, if k == 0 { "subscriptions".to_string() } else { format!("{:?}", ops[k - 1]) }, g[i], e[i]),
+            };
+            break 'o;
+          }
+        }
+      }
+      v
+    }
+  };
+  let nt = ops.iter().any(|o| matches!(o, CrOp::Unsub(_))) && ops.iter().any(|o| matches!(o, CrOp::Complete | CrOp::Error));
+  let desc = if ctx.want_desc || matches!(verdict, Verdict::Violation { .. }) {
+    Some(json!({"subject": if threads {"SubjectThreads"} else {"Subject"}, "subscribers": m, "history": ops.iter().map(|o| format!("{o:?}")).collect::<Vec<_>>()}))
+  } else {
+    None
+  };
+  let mut labels = vec!["part:crowd"];
+  if m >= 33 {
+    labels.push("crowd>=33");
+  }
+  Outcome { verdict, nontrivial: nt, hash: hash_of(&(threads, m, &ops)), labels, notes: vec![], desc }
 }
